@@ -79,7 +79,7 @@ fn renumber_vars(r: &Rule) -> Rule {
     Rule { input: side(&r.input), output: side(&r.output), context: spec(&r.context), except: spec(&r.except), comment: r.comment.clone() }
 }
 
-const STYLES: &[&str] = &["arrow =>", "arrow ->", "// for |", "∅ for *", ".. for ...", "… for ...", "⟨⟩ for <>", "spaces inside matrices", "trailing ;; comment", "Latin alpha letters", "variables renumbered", "// for | and =>"];
+const STYLES: &[&str] = &["arrow =>", "arrow ->", "// for |", "∅ for *", ".. for ...", "… for ...", "⟨⟩ for <>", "spaces inside matrices", "trailing ;; comment", "Latin alpha letters", "last Greek alpha letters", "last Latin alpha letters", "variables renumbered", "// for | and =>"];
 fn restyle(r: &Rule, k: usize) -> Option<String> {
     let d = Style::default();
     let base = d.rule(r);
@@ -87,7 +87,8 @@ fn restyle(r: &Rule, k: usize) -> Option<String> {
         0 => Style { arrow: "=>", ..d }.rule(r), 1 => Style { arrow: "->", ..d }.rule(r), 2 => Style { pipe: "//", ..d }.rule(r), 3 => Style { star: "∅", ..d }.rule(r),
         4 => Style { ellipsis: "..", ..d }.rule(r), 5 => Style { ellipsis: "…", ..d }.rule(r), 6 => Style { angle: ("⟨", "⟩"), ..d }.rule(r), 7 => Style { matrix_space: true, ..d }.rule(r),
         8 => { let mut r2 = r.clone(); r2.comment = Some(" a comment > with / symbols | _ $".into()); d.rule(&r2) }
-        9 => Style { latin_alpha: true, ..d }.rule(r), 10 => d.rule(&renumber_vars(r)), _ => Style { pipe: "//", arrow: "=>", ..d }.rule(r),
+        9 => Style { latin_alpha: true, ..d }.rule(r), 10 => Style { alpha_rev: true, ..d }.rule(r), 11 => Style { latin_alpha: true, alpha_rev: true, ..d }.rule(r),
+        12 => d.rule(&renumber_vars(r)), _ => Style { pipe: "//", arrow: "=>", ..d }.rule(r),
     };
     if s == base { None } else { Some(s) }
 }
